@@ -78,6 +78,12 @@ Definition find_start (p s : str) (start : Z) : Z :=
   | z => (z + st)%Z
   end.
 
+(* _set_name_and_type on the NAME (run after every token line): leading asterisks are removed ("**kw" / anything ending in "kwargs":
+   all of them; "*args": one) *)
+Definition norm_name (n : str) : str :=
+  if endswith (s2l "kwargs") n || startswith [STAR; STAR] n then lstrip_chars [STAR] n
+  else if startswith [STAR] n then tl n else n.
+
 Record pstate := { st_doc : str; st_params : list (str * pentry); st_ret : option pentry; st_cur : option (str * pentry) }.
 
 Definition flush (s : pstate) : list (str * pentry) :=
@@ -104,7 +110,7 @@ Definition parse_token_line (s : pstate) (line : str) : pstate :=
       end in
     let val := strip (slice_from line (nxt_colon + 1)) in
     let e' := if startswith (s2l ":type") line then set_typ cur_e (typ_value val) else set_doc cur_e val in
-    {| st_doc := st_doc s; st_params := params'; st_ret := st_ret s; st_cur := Some (name, e') |}.
+    {| st_doc := st_doc s; st_params := params'; st_ret := st_ret s; st_cur := Some (norm_name name, e') |}.
 
 Definition parse_seg (s : pstate) (sg : seg) : pstate :=
   let '(is_token, line) := sg in
